@@ -648,7 +648,7 @@ pub fn run_world<W: World>(
         world_runs += 1;
         agg.runs += 1;
         agg.steps += r.out.steps_done;
-        agg.sim_seconds += r.out.sim_seconds;
+        agg.sim_seconds = agg.sim_seconds.saturating_add(r.out.sim_seconds);
         agg.sim_ledgers += r.out.sim_ledgers;
         if r.run_seed % 5 == 0 {
             agg.faultfree_runs += 1;
